@@ -19,9 +19,10 @@ Flags_none == [m \in Mods |-> <<{}>>]
 Hooks_ps3 == ("A" :> {}) @@ ("B" :> {"stop"}) @@ ("C" :> {})
 Hooks_sys == ("A" :> {"start"}) @@ ("B" :> {})
 Hooks_tickh == ("A" :> {"start"}) @@ ("B" :> {"eval"})
+Hooks_mix == ("A" :> {"eval", "start", "stop"}) @@ ("B" :> {"stop"}) @@ ("C" :> {})
 Hooks_ctx == ("A" :> {"stop"}) @@ ("B" :> {"eval"})
 \* C15: A may be replaced and is persistent; B is denied everything
 Flags_perm == ("A" :> <<{"REPLACE", "PERSIST"}, {}>>) @@ ("B" :> <<{"DENYCTX", "DENYPUB", "DENYSUB"}>>)
-Hooks_perm == ("A" :> {"start"}) @@ ("B" :> {"start", "stop"})
+Hooks_perm == ("A" :> {"start", "stop"}) @@ ("B" :> {"start", "stop"})
 Flags_perm2 == ("A" :> <<{"REPLACE"}, {}>>) @@ ("B" :> <<{"DENYCTX"}>>)
 =============================================================================
